@@ -20,7 +20,18 @@ def sub(name, run, spec, imports, quick, thorough, compare=None):
     return {"name": name, "run": run, "spec": spec, "imports": imports, "count": {"quick": quick, "thorough": thorough}, "compare": compare}
 
 
+W_IMPORTS = ["Run.World"]
+
 PROPS = {
+    "C01": {
+        "subs": [sub("C01", "run_C01", "spec_C01", W_IMPORTS + ["Run.C01"], 400, 4000)],
+        "run_modules": ["C01"],
+        "rule": "seeded acyclic is_a graphs (1-16 terms, thorough up to 60; multi-parent, redundant shortcut edges, several roots, "
+                "disconnected terms; ids dense/sparse/borders decorrelated from topology; shuffled insertion and link order); "
+                "non-trivial = a term with >= 2 parents and depth >= 3",
+        "trust": [],
+        "assumptions": ["is_a graphs are acyclic (the property's quantifier; cyclic input makes the library recurse forever)"],
+    },
     "C12": {
         "subs": [sub("C12", "run_C12", "spec_C12", ["Run.C12"], 3000, 30000)],
         "run_modules": ["C12"],
